@@ -82,7 +82,6 @@ structure R (b : B) (s : Spec.Broker.S) : Prop where
   inv : Mqtt.Proofs.Broker.Inv b
   linv : Mqtt.Proofs.BrokerLife.Inv b
   qinv : Mqtt.Proofs.BrokerQos.BInv b
-  overlap : s.overlap = false
   held : HeldInv b.topics.sroot s.held
   heldGood : ∀ h ∈ s.held, good h.filter = true
   owners : ∀ h ∈ s.held, h.owner < cbBase → b.alive h.owner = true
@@ -90,6 +89,7 @@ structure R (b : B) (s : Spec.Broker.S) : Prop where
   retsOk : ∀ r ∈ s.rets, validName r.topic = true
   retIds : IdsOk b.topics.rroot
   connLt : ∀ c, b.alive c = true → c < cbBase
+  mconns : (b.conns.map (·.id)).Nodup
   sconns : (s.conns.map (·.id)).Nodup
   connsIff : ∀ c, (Spec.Broker.getConn s c).isSome = b.alive c
   live : ∀ c σ, liveSess b c = some σ → ∃ k, Spec.Broker.getConn s c = some k ∧ LiveRel b s c σ k
@@ -109,8 +109,7 @@ def okEv (b : B) : Ev → Bool
     (match f with
      | .connect req =>
        !Mqtt.Proofs.BrokerLife.accepts (.connect req) a ||
-         ((req.clientId.isEmpty || cidFree b req.clientId) &&
-          (match req.will with | some w => willOk w | none => true))
+         (match req.will with | some w => willOk w | none => true)
      | _ => true)
   | .packet _ (.publish p) => pubOk p
   | .packet _ (.subscribe _ ts) => ts.all (fun tq => good tq.1)
@@ -142,10 +141,8 @@ inductive AcceptsAll : List (List Spec.Broker.SOut) → List (List Out) → Prop
 
 /-! ### basic facts -/
 
-theorem spec_step_eq (s : Spec.Broker.S) (e : Ev) (h : s.overlap = false) :
-    Spec.Broker.step s e = Spec.Broker.step1 s e := by
-  unfold Spec.Broker.step
-  simp [h]
+theorem spec_step_eq (s : Spec.Broker.S) (e : Ev) :
+    Spec.Broker.step s e = Spec.Broker.step1 s e := rfl
 
 theorem liveSess_eq {b : B} {c : Nat} {cn : Conn} {σ : Sess} (hc : b.getConn c = some cn) (ha : cn.alive = true)
     (hs : b.getSess cn.sess = some σ) : liveSess b c = some σ := by
@@ -311,8 +308,8 @@ theorem anonId_inj {a b : Nat} (h : anonId a = anonId b) : a = b := by
 /-! ### the initial states -/
 
 theorem R_init : R {} {} := by
-  refine ⟨Mqtt.Proofs.Broker.Inv_init, Mqtt.Proofs.BrokerLife.inv_init, Mqtt.Proofs.BrokerQos.inv_init, rfl,
-    Mqtt.Proofs.Broker.HeldInv_empty, by simp, by simp, Mqtt.Proofs.Broker.RetInv_empty, by simp, ?_, ?_, by simp,
+  refine ⟨Mqtt.Proofs.Broker.Inv_init, Mqtt.Proofs.BrokerLife.inv_init, Mqtt.Proofs.BrokerQos.inv_init,
+    Mqtt.Proofs.Broker.HeldInv_empty, by simp, by simp, Mqtt.Proofs.Broker.RetInv_empty, by simp, ?_, ?_, by simp, by simp,
     ?_, ?_, ?_, ?_⟩
   · intro e he
     simp [MemTopics.new, Mqtt.Proofs.Topics.absR_empty] at he
